@@ -9,9 +9,24 @@ CHECKS = {
  "C01": ("pbt", "seeded proptest over generated document trees x traversal-target grammar, oracle = planted-secret non-disclosure + error status for climbing targets",
          "Exploration: every run materialises 32 (quick) / 640 (thorough) generated trees with uniquely marked secrets at every ancestor level, beside owner-linked outside directories and in look-alike sibling directories, and sends 1,500 / 4,000 grammar-generated targets per tree (half of them climb exactly to a level and name a secret there) with and without Range headers through both request entry points of the real code. A negative ('no target discloses') cannot be proven by sampling; the grammar covers the spellings the statement names.",
          "Secrets consist of marker text only, so any 12-byte window of a secret in a response is a disclosure; Range slices of a secret shorter than 12 bytes would escape; in-process route with cwd = served root.", "DESIGN.md §4 C01"),
+ "C02": ("pbt", "seeded proptest over generated document trees, every derived request path judged by a filesystem reference lookup (M-LOOKUP) and an extension table (M-MIME), plus metamorphic query/fragment and legacy-entry differentials",
+         "Exploration: 128 (quick) / 3,000 (thorough) generated trees; for each tree every file, directory (with/without slash), .html fallback, special route and six kinds of near miss is requested with four suffixes through the real Server::process; bytes, length, type and 404 bodies are compared with the harness's own lookup over std::fs. A failing tree is shrunk by proptest. Sampling of trees, exhaustive over the derived paths of each tree.",
+         "Trusts std::fs for the reference lookup and the harness's transcription of the extension table; tolerances for the cases the statement leaves open are listed in evidence assumptions.", "DESIGN.md §4 C02"),
+ "C03": ("pbt", "seeded proptest over (file length, Range header) with an independent RFC 7233 reference model (M-RANGE)",
+         "Exploration: 48k (quick) / 3M (thorough) (L, header) pairs with offsets concentrated at 0, 1, L-2..L+1, 2^63, u64::MAX and beyond, 1-6 specs, malformed shapes, reached directly, via directory index and via .html fallback. Satisfiable headers must be served exactly (bytes, label, length, order); others must be 416 or self-consistent. One listed known finding (label last = L) is counted and excluded so that the search continues behind it.",
+         "Position-dependent file content makes any wrong offset visible; 'valid' is the RFC 7233 ABNF as parsed by the harness.", "DESIGN.md §4 C03"),
  "C04": ("pbt", "grammar-based request mutation (seeded proptest, supervised worker processes) against a strict response parser and a request-line reference model",
          "Exploration: 40k (quick) / 3M (thorough) generated requests - coherent requests to every endpoint and free hostile combinations, 0-4 byte-level mutations, thousands of header lines, oversize, three buffer sizes, three application kinds - run through the real Server::process on a mock transport; panics are caught, aborts (stack overflow) are attributed to the in-flight case by the supervisor. Each response must be exactly one M-HTTP response with an error status where the pre-parser or the handler demands it.",
          "In-process: survival is seen as absence of panic/abort; the harness's pre-parser only demands a status for the classes the statement names. Process-level survival over the network is checked by C06.", "DESIGN.md §4 C04"),
+ "C05": ("pbt", "seeded proptest: strict independent response parser (M-HTTP) over the request-mutation campaign + differential short-write/unlimited transport",
+         "Exploration: 24k (quick) / 2M (thorough) responses from valid and hostile requests on both entry points checked against M-HTTP's well-formedness and self-consistency rules, and 24k / 1M (request, write script) pairs - every chunk size 1..64, a boundary at every byte of the head (also enumerated exhaustively for three requests), random chunk sequences, Ok(0), write error at byte k, flush error - compared with the unlimited-transport response.",
+         "Mock transport implements std::io::Write faithfully (short counts are legal); responses compared modulo the timestamp header value.", "DESIGN.md §4 C05"),
+ "C09": ("pbt", "seeded proptest over generated trees; differential GET vs HEAD vs OPTIONS per servable path with a CORS reference model for the default configuration",
+         "Exploration: 48 (quick) / 2,000 (thorough) generated trees, every servable path x 4 header variants x 2 entry points as GET/HEAD/OPTIONS triples (about 24k requests per quick run); HEAD must equal GET in status and header multiset with an empty body, OPTIONS must be a bodiless 2xx with the predicted preflight grants.",
+         "GET's own correctness is C02's; CORS grants are judged for the default allow-all configuration (C11 varies it).", "DESIGN.md §4 C09"),
+ "C10": ("pbt", "seeded proptest: header-multiset invariant over every response of the request-mutation campaign",
+         "Exploration: 40k (quick) / 3M (thorough) responses (200, 204, 206, 400, 404, 416, built-in pages, form endpoints, unparseable input; both entry points; allow-all and restricted CORS configuration) must carry each hardening / no-cache header exactly once with the stated value.",
+         "Statuses rws cannot be driven to from outside (500) are not reached; crashed requests are C04's.", "DESIGN.md §4 C10"),
  "C14": ("pbt", "seeded proptest round-trip (parse . generate = id) + accept/reject reference model of the request line",
          "Exploration: 50k (quick) / 2M (thorough) generated well-formed requests are serialised by the library and parsed back, compared field by field; 40k / 2M raw messages (request-line near misses, arbitrary UTF-8 heads, junk Content-Length) are judged by the harness's accept/reject model. Failures shrink to a minimal request. Sampling, not proof: absence of a counterexample in the grammar explored.",
          "Trusts Request::generate as the serialiser under test and the harness's request-line model; classes the statement leaves open (lower case, extra spaces, empty target pinned by the unit tests, later non-UTF-8 header lines) assert totality only.", "DESIGN.md §4 C14"),
